@@ -16,7 +16,7 @@ RULE = (
     "Rows of a seeded covering array (pairwise quick / 3-wise thorough) over kernel x resampler x clustering x evaluation mode x metric x "
     "n_total in {1,4,8}xN x d in {1,2,3} x zero-likelihood region; each row = one Sampler.run on an instrumented target, then all 2^4 "
     "combinations of posterior(resample, trim_importance_weights, return_blobs, return_logw) with seed-drawn ess_trim in (0.5,0.999) and "
-    "bins_trim in {10,100,1000}. Non-trivial = trimming removed >=1 sample and the run has >=3 batches. distinct = (row, seed)."
+    "bins_trim in {1,2,10,100,1000}. Non-trivial = trimming removed >=1 sample and the run has >=3 batches. distinct = (row, seed)."
 )
 ASSUMPTIONS = [
     "reference MIS weights/evidence/ESS recomputed from the stored history in long double (vlib.refs); tolerances 1e-9",
@@ -75,7 +75,7 @@ class Contract(RowCheck):
 
         prng = np.random.default_rng(seed + 17)
         ess_trim = float(prng.uniform(0.5, 0.999))
-        bins = int(prng.choice([10, 100, 1000]))
+        bins = int(prng.choice([1, 2, 10, 100, 1000]))
         removed_any = False
         for rs, tr, rb, rl in itertools.product([False, True], repeat=4):
             what = f"posterior(resample={rs}, trim_importance_weights={tr}, return_blobs={rb}, return_logw={rl}, ess_trim={ess_trim:.3f}, bins_trim={bins})"
